@@ -86,6 +86,14 @@ func (p *Program) verifyFuncWith(key string, forceSafety bool, extraTags []strin
 	vc.assume(fmt.Sprintf("(> %s 0)", vc.get(st, "next")))
 	vc.regComp("Own_SendCnt", "Int")
 	st.comp["Own_SendCnt"] = "0"
+	if ct != nil {
+		for _, fl := range ct.Flags {
+			if len(fl) > 0 {
+				vc.regComp(flagComp(fl[0]), "Bool")
+				st.comp[flagComp(fl[0])] = "false"
+			}
+		}
+	}
 	f.entry = st.clone()
 	// implicit lock preconditions: locks this function takes on its parameters are free at entry
 	for _, il := range p.implicitLocks(fn) {
